@@ -76,7 +76,7 @@ def lexer_text(d, redundant=None, derive_clone=True):
     sets = ruleset_names(d)
     out = ['lexer! {']
     if derive_clone:
-        out.append('    #[derive(Clone)]')
+        out.append('    #[derive(Clone, Debug)]')
     out.append('    pub %s(lv::St) -> lv::Tok;' % name)
     idx = 0
     for it in d['items']:
